@@ -6,7 +6,7 @@ V="$(cd "$(dirname "$0")/.." && pwd)"
 P="$(readlink -f "$1")"; shift
 IDS=("$@"); [ ${#IDS[@]} -eq 0 ] && IDS=(C01 C02 C03 C04 C05 C06 C07 C08 C09 C10 C11 C12 C13 C14 C15 C16 C17 C18 C19 C20)
 if [ -n "$(git -C /repo status --porcelain)" ]; then echo "/repo is not clean" >&2; exit 2; fi
-restore() { git -C /repo checkout -- . ; }
+restore() { git -C /repo checkout -- . ; git -C /repo clean -fdq -- src ; }
 trap restore EXIT
 git -C /repo apply "$P" || { echo "patch does not apply" >&2; exit 2; }
 if [ -z "${MUTATE_SKIP_TESTS:-}" ]; then
